@@ -539,6 +539,12 @@ def mv_write(ctx):
         if pc and pv and pc[1] == ('clock',) and pv[1] == ():
             cty = body.locals[pc[0]]['ty']
             ok = cty.get('k') == 'adt' and cty['path'].endswith('ctx::AddCtx') and pv[0] != pc[0]
+            # the clock must be the context clock itself, not a version of it that some call has modified (glb, reset_remove, ..)
+            raw = f['clock']
+            while raw[0] in ('lv', 'at'):
+                raw = raw[3] if raw[0] == 'lv' else raw[2]
+            if raw != ('field', ('param', pc[0]), 'clock'):
+                ok = False
     ctx.check(ok, 'write', body, 'Put{clock: ctx.clock, val}', 'MVReg::write builds %s, expected Put{clock: ctx.clock, val: val}' % fmt(r))
 
 
